@@ -189,6 +189,25 @@ class World:
         if sf != df:
             self.flags["cross"] = True
 
+    def op_cp_to_root(self, op):
+        """cp <file>::<nested collection> <other file>  - the destination is the ROOT of the other file (which holds no
+        root collection yet): the root-destination special case with a nested source."""
+        from cooler.fileops import cp
+
+        sf, sp = self._src(op)
+        if sf is None:
+            return False
+        df = 1 - sf
+        if "/" in self.entries[df] or any(p.split("/")[1] in ("chroms", "bins", "pixels", "indexes") for p in self.entries[df]):
+            return False
+        fresh = not os.path.exists(self.files[df])
+        self._do(op, f"cp {sp} -> f{df} root", cp, ["cp"], self.uri(sf, sp, op["slash"]), self.uri(df, "/", not op["slash"]))
+        if fresh:
+            self.entries[df] = {}
+            self.unrelated[df] = None
+        self.entries[df]["/"] = {"kind": "cooler", "content": self.entries[sf][sp]["content"]}
+        self.flags["cross"] = True
+
     def op_cp_root(self, op):
         """Whole-file copy: cp f::/ g::/ with overwrite (the root-destination special case)."""
         from cooler.fileops import cp
@@ -277,6 +296,9 @@ class World:
                 check(got == [r[:3] for r in want["rows"]],
                       lambda: f"after {self.history[-1]['op']}: f{fi}::{p} reads pixels {got[:5]}, the model holds {[r[:3] for r in want['rows']][:5]}")
                 check(model.read_bins(clr) == model.bins_rows(want["bt"]), f"after {self.history[-1]['op']}: f{fi}::{p} bin table differs")
+                inf = clr.info
+                check(inf.get("nnz") == len(want["rows"]) and inf.get("nbins") == gen.n_bins(want["bt"]),
+                      f"after {self.history[-1]['op']}: f{fi}::{p} attributes nnz/nbins = {inf.get('nnz')}/{inf.get('nbins')} belong to another collection")
                 check(clr.storage_mode == ("symmetric-upper" if want["symmetric"] else "square"), f"f{fi}::{p} storage mode differs")
                 b = clr.bins()[0:0]
                 if want["weight"] is None:
@@ -340,6 +362,10 @@ def make_machine(ctx: Ctx):
         @rule(src_file=st.integers(0, 1), src=st.integers(0, 9), dst_file=st.integers(0, 1), dst=st.integers(0, 9), slash=st.booleans(), cli=st.booleans())
         def cp(self, src_file, src, dst_file, dst, slash, cli):
             self.w.apply({"op": "cp", "src_file": src_file, "src": src, "dst_file": dst_file, "dst": dst, "slash": slash, "cli": cli})
+
+        @rule(src_file=st.integers(0, 1), src=st.integers(0, 9), slash=st.booleans(), cli=st.booleans())
+        def cp_to_root(self, src_file, src, slash, cli):
+            self.w.apply({"op": "cp_to_root", "src_file": src_file, "src": src, "slash": slash, "cli": cli})
 
         @rule(src_file=st.integers(0, 1), slash=st.booleans(), cli=st.booleans())
         def cp_root(self, src_file, slash, cli):
